@@ -534,6 +534,31 @@ func genWriteCase(r *emit.Rng, idx int) *wcase {
 		c.tags = append(c.tags, "opts:default-backoff")
 	}
 	c.script = genScript(r, n, &c.tags)
+	if !c.noBackoff && r.Chance(1, 14) {
+		// long retry sequences: up to and beyond 10 retries (the default MaxRetries), no waiting; every request's
+		// Retry-Attempt header is checked (absent on the first, = k on retry k)
+		c.min, c.max = 0, []time.Duration{0, time.Microsecond}[r.Intn(2)]
+		c.maxRetr = []int{10, 10, 11, 12, 15, 20, 0}[r.Intn(7)]
+		k := 9 + r.Intn(9)
+		var long []attemptSpec
+		for i := 0; i < k; i++ {
+			var a attemptSpec
+			switch x := r.Intn(6); {
+			case x == 0:
+				a.kind = 0
+			case x == 1:
+				a.kind, a.fault = 3, r.Intn(len(transportFaults))
+			case x == 2 && c.retry429:
+				genResp(r, 429, &a)
+			default:
+				genResp(r, retryStatus[r.Intn(len(retryStatus))], &a)
+			}
+			a.retryAfter, a.raDate = "", nil
+			long = append(long, a)
+		}
+		c.script = append(long, c.script[len(c.script)-1])
+		c.tags = append(c.tags, "retries:long-sequence")
+	}
 	if c.noBackoff && !c.retry429 && r.Chance(1, 2) {
 		genResp(r, 429, &c.script[0])
 		c.tags = append(c.tags, "outcome:429")
@@ -861,7 +886,11 @@ func runWriteStream(c *cli.Ctx, rng *emit.Rng, direct *[]map[string]interface{})
 			*direct = append(*direct, map[string]interface{}{"index": i, "what": "Write: " + cs.err.Error()})
 		}
 		tags := append([]string{}, cs.tags...)
-		tags = append(tags, fmt.Sprintf("attempts:%d", min(len(cs.reqs), 6)))
+		if len(cs.reqs) >= 11 {
+			tags = append(tags, "attempts:11+ (Retry-Attempt >= 10)")
+		} else {
+			tags = append(tags, fmt.Sprintf("attempts:%d", min(len(cs.reqs), 6)))
+		}
 		w.Add(cs.term(), len(cs.reqs) >= 2, tags...)
 	}
 	if len(*direct) > 0 {
